@@ -386,7 +386,7 @@ static void ZSTD_DCtx_selectFrameDDict(ZSTD_DCtx* dctx) {
         if (frameDDict) {
             DEBUGLOG(4, "DDict found!");
             ZSTD_clearDict(dctx);
-            dctx->dictID = dctx->fParams.dictID;
+            /* dctx->dictID is recorded by the function that loads a dictionary's tables and content, not here */
             dctx->ddict = frameDDict;
             dctx->dictUses = ZSTD_use_indefinitely;
         }
